@@ -147,7 +147,7 @@ def finish(pid, mod, tier, seed, results, wall):
         out_lines.append(f"KNOWN-FINDING: property={pid} {k.get('what', v['label'])}")
     seen_v = set()
     for r, v, _ in violations:
-        key = (r['harness'], v['label'])
+        key = (r['harness'], v['label'], str(r['case'].get('component', '')))
         if key in seen_v:
             continue
         seen_v.add(key)
